@@ -318,6 +318,25 @@ class Events(Monitor):
                 if snap["n"] == pre["n"]:
                     world.violate("C09", "C09.continues_after_stop", "call %d starts on the terminal stop at t=%r and was asked to go to %r, but recorded no step (status: %s)"
                                   % (i, self.start_t, self.target, snap["status"][:60]))
+                else:
+                    # ... and moving on means getting away from the crossing it started on: a call that is stopped again by the SAME function
+                    # within 1e-4 of where it started (the generator keeps genuine crossings of one function >= 1e-3 apart) has met the
+                    # crossing it was sitting on once more
+                    prev_ev = prev["events"][-1]
+                    new_term = [events[j] for j in new if events[j].event.is_terminal]
+                    if new_term and "terminated upon finding" in snap["status"] and new_term[-1].event.idx == prev_ev[2] \
+                            and abs(_f(new_term[-1].t) - _f(prev_ev[0])) <= 1e-4 * max(1.0, abs(_f(prev_ev[0]))):
+                        ev_ = new_term[-1].event
+                        g_stop = None
+                        try:
+                            yp_ = np.asarray(prev["y"][-1])
+                            g_stop = float(ev_.g(prev["t"][-1], yp_, world.f_math(prev["t"][-1], yp_) if ev_.kind == "dstate" else None))
+                        except Exception:
+                            pass
+                        world.violate("C09", "C09.restops_at_same_crossing", "call %d starts on the terminal stop of event %d at t=%r and is stopped by the same crossing again at t=%r "
+                                      "(%.3e later; g at the stop point was %r): the crossing is reported twice and the target %r is not reached"
+                                      % (i, ev_.idx, _f(prev_ev[0]), _f(new_term[-1].t), abs(_f(new_term[-1].t) - _f(prev_ev[0])), g_stop, self.target),
+                                      facts={"event_kind": ev_.kind, "restop_offset__": abs(_f(new_term[-1].t) - _f(prev_ev[0]))})
         # the run's own global error (against the closed form), used to scale the analytic bounds
         E = None
         if exact_ok and snap["n"] >= 2:
